@@ -69,6 +69,8 @@ pub struct RunOpts {
     pub bytes_unchanged: bool,
     /// after a call that returned an error, dump the whole transaction and compare (C06)
     pub dump_after_error: bool,
+    /// record the model and both header pages after every commit
+    pub snap_headers: bool,
     pub final_reopen: bool,
     /// scratch file path
     pub path: PathBuf,
@@ -88,6 +90,7 @@ impl RunOpts {
             dump_after_commit: true,
             bytes_unchanged: false,
             dump_after_error: false,
+            snap_headers: false,
             final_reopen: true,
             path,
             keep_file: false,
@@ -1530,8 +1533,8 @@ pub fn verify_committed(db: &DB, model: &MBucket, opts: &RunOpts, cfg: &Cfg, wha
     }
     let mut st = None;
     if opts.fsck_after_commit {
-        let bytes = std::fs::read(&opts.path).map_err(|e| Failure::new("io", e.to_string()))?;
-        let rep = fsck::fsck(&bytes, cfg.pagesize);
+        let (bytes, file_len) = read_prefix(&opts.path, cfg.pagesize)?;
+        let rep = fsck::fsck_len(&bytes, cfg.pagesize, file_len);
         if !rep.ok() {
             return Err(Failure::new(
                 "fsck",
@@ -1562,10 +1565,33 @@ pub fn verify_committed(db: &DB, model: &MBucket, opts: &RunOpts, cfg: &Cfg, wha
     Ok(st)
 }
 
+/// Reads the file up to the larger high-water mark of its two headers; returns (bytes, file length).
+pub fn read_prefix(path: &FsPath, ps: u64) -> Result<(Vec<u8>, u64), Failure> {
+    use std::io::Read;
+    let mut f = std::fs::File::open(path).map_err(|e| Failure::new("io", e.to_string()))?;
+    let file_len = f.metadata().map_err(|e| Failure::new("io", e.to_string()))?.len();
+    let head_len = (2 * ps).min(file_len) as usize;
+    let mut head = vec![0u8; head_len];
+    f.read_exact(&mut head).map_err(|e| Failure::new("io", e.to_string()))?;
+    let (_, slots) = fsck::choose_meta(&head, ps);
+    let hw = slots.iter().flatten().map(|m| m.num_pages).max().unwrap_or(4).min(1 << 26);
+    let want = hw.saturating_mul(ps).min(file_len);
+    if want as usize > head.len() {
+        let mut rest = vec![0u8; want as usize - head.len()];
+        f.read_exact(&mut rest).map_err(|e| Failure::new("io", e.to_string()))?;
+        head.extend(rest);
+    }
+    Ok((head, file_len))
+}
+
 pub struct Outcome {
     pub stats: CaseStats,
     pub result: Result<(), Failure>,
     pub model: MBucket,
+    /// model after every successful commit (index 0 = after the first commit)
+    pub commit_models: Vec<MBucket>,
+    /// the two header pages after every successful commit (only with RunOpts::snap_headers)
+    pub header_snaps: Vec<Vec<u8>>,
 }
 
 /// Runs a whole history. The scratch file at opts.path is created fresh unless start_model is set.
@@ -1575,7 +1601,9 @@ pub fn run_history(case: &HistoryCase, opts: &RunOpts) -> Outcome {
     if opts.start_model.is_none() {
         let _ = std::fs::remove_file(&opts.path);
     }
-    let result = run_history_inner(case, opts, &mut stats, &mut model);
+    let mut commit_models = Vec::new();
+    let mut header_snaps = Vec::new();
+    let result = run_history_inner(case, opts, &mut stats, &mut model, &mut commit_models, &mut header_snaps);
     if !opts.keep_file {
         let _ = std::fs::remove_file(&opts.path);
     }
@@ -1583,10 +1611,19 @@ pub fn run_history(case: &HistoryCase, opts: &RunOpts) -> Outcome {
         stats,
         result,
         model,
+        commit_models,
+        header_snaps,
     }
 }
 
-fn run_history_inner(case: &HistoryCase, opts: &RunOpts, stats: &mut CaseStats, model: &mut MBucket) -> Result<(), Failure> {
+fn run_history_inner(
+    case: &HistoryCase,
+    opts: &RunOpts,
+    stats: &mut CaseStats,
+    model: &mut MBucket,
+    commit_models: &mut Vec<MBucket>,
+    header_snaps: &mut Vec<Vec<u8>>,
+) -> Result<(), Failure> {
     let cfg = &case.cfg;
     let mut db = Some(open_db(cfg, &opts.path).map_err(|f| f.at(0, None))?);
     let mut prev_stats: Option<fsck::Stats> = None;
@@ -1637,6 +1674,15 @@ fn run_history_inner(case: &HistoryCase, opts: &RunOpts, stats: &mut CaseStats, 
                         let changed = work != *model;
                         *model = work;
                         stats.commits += 1;
+                        if opts.snap_headers {
+                            use std::io::Read;
+                            commit_models.push(model.clone());
+                            let mut buf = vec![0u8; 2 * cfg.pagesize as usize];
+                            if let Ok(mut f) = std::fs::File::open(&opts.path) {
+                                let _ = f.read_exact(&mut buf);
+                            }
+                            header_snaps.push(buf);
+                        }
                         if changed {
                             stats.mut_commits += 1;
                             if pending_rollback {
